@@ -67,7 +67,7 @@ func init() {
 			"'never early' is one-sided: the start instant is read before Play/MultiPlay is called, so machine load can only delay sends, never make the check fire",
 			"sysex events in tracks are not constrained (the statement speaks of channel messages and meta events)",
 		},
-		Require:         []string{"plays", "sends_observed", "same_tick_runs_ge_13", "cross_track_same_tick", "selections_proper_subset", "maps_without_default", "never_early_checks", "play_single_port", "replays_with_rerouted_map", "late_schedule_plays", "round_gap_plays", "selections_with_repeated_tracks", "long_plays_on_virtual_clock", "slow_ports"},
+		Require:         []string{"plays", "sends_observed", "same_tick_runs_ge_13", "cross_track_same_tick", "selections_proper_subset", "maps_without_default", "never_early_checks", "play_single_port", "replays_with_rerouted_map", "late_schedule_plays", "round_gap_plays", "selections_with_repeated_tracks", "long_plays_on_virtual_clock", "slow_ports", "files_with_tempo_curves_over_32_changes"},
 		FakeTimeWorkers: 2,
 		Workers:         16,
 		Run:             runC12,
@@ -110,6 +110,27 @@ func runC12(c *mon.Ctx) {
 				f := tempo()
 				tr = append(tr, ref.EncEv{Ev: ref.Ev{Delta: 0, Msg: ref.Meta(0x51, []byte{byte(f >> 16), byte(f >> 8), byte(f)})}})
 				tm.Events = append(tm.Events, ref.TempoEv{AbsTick: 0, USPerQuarter: f})
+			}
+			if t == 0 && i%3 == 1 {
+				// a tempo curve: 33..90 tempo changes on neighbouring ticks (a rendered ritardando / accelerando),
+				// a note one tick behind each of them
+				for q, nq := 0, r.Range(33, 90); q < nq; q++ {
+					f := tempo()
+					abs++
+					tr = append(tr, ref.EncEv{Ev: ref.Ev{Delta: 1, Msg: ref.Meta(0x51, []byte{byte(f >> 16), byte(f >> 8), byte(f)})}})
+					if len(tm.Events) == 0 || tm.Events[len(tm.Events)-1].AbsTick <= abs {
+						tm.Events = append(tm.Events, ref.TempoEv{AbsTick: abs, USPerQuarter: f})
+					}
+					if r.P(2, 3) {
+						id++
+						abs++
+						m := []byte{0xB0, byte(id >> 7 & 127), byte(id & 127)}
+						truth = append(truth, c12Ev{t, len(tr), abs, m})
+						usedTicks[abs] = t + 1
+						tr = append(tr, ref.EncEv{Ev: ref.Ev{Delta: 1, Msg: m}})
+					}
+				}
+				c.Count("files_with_tempo_curves_over_32_changes", 1)
 			}
 			ne := r.Range(0, 40)
 			for k := 0; k < ne; {
